@@ -36,7 +36,7 @@ func execConnXtalk(toks []string) string {
 		fk, _ = strconv.Atoi(v)
 	}
 	bigS, _ := kvGet(toks, "big")
-	big := bigS == "1"
+	bigMode := bigS
 	if K < 1 || R < 1 {
 		return "badinput"
 	}
@@ -65,6 +65,23 @@ func execConnXtalk(toks []string) string {
 	}
 	bad := make([]string, K)
 	nfault, nclosed := 0, 0
+	// first, one message per connection that is larger than the pooled read buffer (it is read
+	// into a slice of its own): whatever that path does with the pooled buffer must not show in
+	// the small messages that follow
+	for i, mc := range conns {
+		id := uint32(500 + i)
+		host := fmt.Sprintf("medium-%02d.%s", i, strings.Repeat("m", 1100+37*i))
+		mc.deliver(simpleMsg(280, 0x80, 0, id, id, diam.NewAVP(264, 0x40, 0, datatype.DiameterIdentity(host))))
+		ok := waitFor(func() bool { mu.Lock(); defer mu.Unlock(); _, seen := got[id]; return seen || mc.isClosed() }, 2*time.Second)
+		mu.Lock()
+		v, seen := got[id]
+		mu.Unlock()
+		if !ok || !seen {
+			bad[i] = "lost"
+		} else if v != host {
+			bad[i] = "foreign"
+		}
+	}
 	for r := 0; r < R; r++ {
 		// complete frames whose only AVP cannot be decoded (its Length runs past the message)
 		for j := 0; j < F; j++ {
@@ -101,6 +118,9 @@ func execConnXtalk(toks []string) string {
 			}
 		}
 		// every healthy connection: first the header and part of the body, then the rest
+		// big=1: every healthy message is larger than 64 KiB; big=2: large and small rounds alternate
+		// (the small ones are read through the pooled buffer the large ones went around)
+		big := bigMode == "1" || (bigMode == "2" && r%2 == 0)
 		type half struct{ a, b []byte }
 		var msgs []half
 		for i := range conns {
@@ -121,6 +141,7 @@ func execConnXtalk(toks []string) string {
 			mc.deliver(msgs[i].b)
 		}
 		for i, mc := range conns {
+			big := bigMode == "1" || (bigMode == "2" && r%2 == 0)
 			id := uint32(1000*(r+1) + i)
 			want := fmt.Sprintf("conn-%02d-round-%d.%s", i, r, strings.Repeat(string(rune('a'+i%26)), xtalkPad(big, i)))
 			ok := waitFor(func() bool { mu.Lock(); defer mu.Unlock(); _, seen := got[id]; return seen || mc.isClosed() }, 2*time.Second)
@@ -167,7 +188,7 @@ func init() {
 			if i%2 == 0 {
 				emit(fmt.Sprintf("conn xtalk k=%d f=%d rounds=%d seq=%d", 4+r.Intn(13), 1+r.Intn(4), 2+r.Intn(3), i))
 			} else {
-				emit(fmt.Sprintf("conn xtalk k=%d f=%d rounds=%d fk=%d big=%d seq=%d", 2+r.Intn(7), 1+r.Intn(5), 2+r.Intn(3), 1+r.Intn(4), r.Intn(2), i))
+				emit(fmt.Sprintf("conn xtalk k=%d f=%d rounds=%d fk=%d big=%d seq=%d", 2+r.Intn(7), 1+r.Intn(5), 2+r.Intn(3), 1+r.Intn(4), r.Intn(3), i))
 			}
 		}
 	}
